@@ -30,13 +30,41 @@ def std(qs=120, ts=2400, mcq=None, mct=None, rq=("Replay_quick.cfg",), rt=("Repl
     }
 
 
-DAQ = dict(module="MC_DoubleArray.tla", cfg="MC_DoubleArray_quick.cfg")
-DAT = dict(module="MC_DoubleArray.tla", cfg="MC_DoubleArray_thorough.cfg", timeout=3000)
+def M(mod, tier, **kw):
+    d = dict(module="%s.tla" % mod, cfg="%s_%s.cfg" % (mod, tier))
+    d.update(kw)
+    return d
+
+
+DAQ, DAT = M("MC_DoubleArray", "quick"), M("MC_DoubleArray", "thorough", timeout=3000)
+WINQ, WINT = M("MC_Window", "quick"), M("MC_Window", "thorough", timeout=1800)
+CWQ, CWT = M("MC_Charwise", "quick"), M("MC_Charwise", "thorough", timeout=3000)
+U8Q, U8T = M("MC_Utf8", "quick"), M("MC_Utf8", "thorough", timeout=3000)
+APIQ, APIT = M("MC_Api", "quick"), M("MC_Api", "thorough", timeout=3000)
+AMORT = [dict(module="Amortized.tla", init="Init", inv="IndInv", length=0),
+         dict(module="Amortized.tla", init="IndInit", inv="IndInv", length=1),
+         dict(module="Amortized.tla", init="IndInit", inv="Bound", length=0)]
+SIMQ = dict(module="MC_Api.tla", cfg="Replay_Api.cfg", simulate=True, take=1500, depth=20, timeout=60)
+SIMT = dict(module="MC_Api.tla", cfg="Replay_Api.cfg", simulate=True, take=12000, depth=20, timeout=200)
 
 PLAN = {p: std() for p in TITLES}
-# the double-array layout (exact BuildHelper ring, evictions, sanitising, closure, order independence)
-for _p in ("C01", "C07", "C10", "C11", "C14"):
-    PLAN[_p] = std(mcq=[DAQ], mct=[DAT])
+# L2: the double-array layout (exact BuildHelper ring, evictions, sanitising, closure, order independence)
+# window form: all haystack lengths; char-wise: real UTF-8 against the byte-level meaning
+PLAN["C01"] = std(mcq=[DAQ, WINQ], mct=[DAT, WINT])
+PLAN["C02"] = std(mcq=[WINQ], mct=[WINT])
+PLAN["C03"] = std(mcq=[CWQ], mct=[CWT])
+PLAN["C04"] = std(mcq=[CWQ], mct=[CWT])
+PLAN["C05"] = std(mcq=[WINQ], mct=[WINT])
+PLAN["C07"] = std(mcq=[DAQ, U8Q, CWQ], mct=[DAT, U8T, CWT])
+PLAN["C08"] = std(mcq=[CWQ, U8Q], mct=[CWT, U8T])
+PLAN["C09"] = std(mcq=[APIQ], mct=[APIT], rq=("Replay_quick.cfg", SIMQ), rt=("Replay_thorough.cfg", SIMT))
+PLAN["C10"] = std(mcq=[DAQ], mct=[DAT])
+PLAN["C11"] = std(mcq=[DAQ], mct=[DAT])
+PLAN["C12"] = std(mcq=[APIQ, CWQ], mct=[APIT, CWT], rq=("Replay_quick.cfg", SIMQ), rt=("Replay_thorough.cfg", SIMT))
+PLAN["C13"] = std(mcq=[WINQ], mct=[WINT])
+for _t in ("quick", "thorough"):
+    PLAN["C13"][_t]["apalache"] = AMORT
+PLAN["C14"] = std(mcq=[DAQ, APIQ], mct=[DAT, APIT], rq=("Replay_quick.cfg", SIMQ), rt=("Replay_thorough.cfg", SIMT))
 PLAN["C16"] = {
     "quick": dict(invocations=400, mc=[dict(module="MC_Daacfind.tla", cfg="MC_Daacfind_quick.cfg")]),
     "thorough": dict(invocations=4000, mc=[dict(module="MC_Daacfind.tla", cfg="MC_Daacfind_thorough.cfg", timeout=2400)]),
